@@ -144,6 +144,10 @@ static void ev_info(World *w, int c, unsigned rid, const Result &r, const OlaUni
                   ":" + vh::str(u.Id()) + ":" + vh::hex(u.Name()) + ":" +
                   (u.MergeMode() == OlaUniverse::MERGE_HTP ? "1" : "0"));
 }
+// every other request kind: only the completion status is observed
+template <typename T>
+static void ev_opq(World *w, int c, unsigned rid, const Result &r, const T&) { ev_set(w, c, rid, r); }
+
 static void ev_dmx(World *w, int c, const DMXMetadata &m, const DmxBuffer &b) {
   w->ev.push_back(vh::str(c) + ".dmx:" + vh::str(m.universe) + ":" +
                   vh::str(static_cast<unsigned>(m.priority)) + ":" + vh::hex(b.GetRaw(), b.Size()));
@@ -213,7 +217,8 @@ static string dump(World *w) {
        it != st->m_universe_map.end(); ++it) {
     ola::Universe *u = it->second;
     o << "[" << it->first << "," << (u->m_merge_mode == ola::Universe::MERGE_HTP ? 1 : 0) << ","
-      << vh::hex(u->m_universe_name) << "," << dhash(u->m_buffer) << ","
+      << dhash(reinterpret_cast<const uint8_t*>(u->m_universe_name.data()), u->m_universe_name.size())
+      << "," << dhash(u->m_buffer) << ","
       << static_cast<unsigned>(u->m_active_priority) << ",s";
     vector<string> parts;
     for (ola::Universe::SourceClientMap::const_iterator s = u->m_source_clients.begin();
@@ -428,6 +433,51 @@ static string run_case(const string &payload) {
       w.completions[rid];
       c->client->Patch(1, 0, ola::client::OUTPUT_PORT, ola::client::PATCH, vh::num(f[2]),
                        ola::NewSingleCallback(&ev_set, &w, c->idx, rid));
+    } else if (op == "X") {
+      // X,c,kind,arg: the other request kinds of the client API (opaque completions)
+      unsigned rid = w.next_rid++;
+      w.completions[rid];
+      unsigned kind = vh::num(f[2]);
+      unsigned arg = vh::num(f[3]);
+      OlaClient *cl = c->client;
+      int ci = c->idx;
+      switch (kind) {
+        case 0:
+          cl->Patch(1, 0, ola::client::OUTPUT_PORT, ola::client::PATCH, arg, ola::NewSingleCallback(&ev_set, &w, ci, rid));
+          break;
+        case 1:
+          cl->FetchPluginList(ola::NewSingleCallback(&ev_opq<std::vector<ola::client::OlaPlugin> >, &w, ci, rid));
+          break;
+        case 2:
+          cl->FetchPluginDescription(ola::OLA_PLUGIN_DUMMY, ola::NewSingleCallback(&ev_opq<string>, &w, ci, rid));
+          break;
+        case 3:
+          cl->FetchDeviceInfo(ola::OLA_PLUGIN_ALL, ola::NewSingleCallback(&ev_opq<std::vector<ola::client::OlaDevice> >, &w, ci, rid));
+          break;
+        case 4:
+          cl->FetchCandidatePorts(arg, ola::NewSingleCallback(&ev_opq<std::vector<ola::client::OlaDevice> >, &w, ci, rid));
+          break;
+        case 5:
+          cl->ConfigureDevice(1, string(arg, 'c'), ola::NewSingleCallback(&ev_opq<string>, &w, ci, rid));
+          break;
+        case 6:
+          cl->SetPortPriorityInherit(1, 0, ola::client::OUTPUT_PORT, ola::NewSingleCallback(&ev_set, &w, ci, rid));
+          break;
+        case 7:
+          cl->RunDiscovery(arg, ola::client::DISCOVERY_CACHED, ola::NewSingleCallback(&ev_opq<ola::rdm::UIDSet>, &w, ci, rid));
+          break;
+        case 8:
+          cl->FetchUniverseList(ola::NewSingleCallback(&ev_opq<std::vector<OlaUniverse> >, &w, ci, rid));
+          break;
+        case 9:
+          cl->FetchPluginState(ola::OLA_PLUGIN_DUMMY, ola::NewSingleCallback(&ev_opq<ola::client::PluginState>, &w, ci, rid));
+          break;
+        case 10:
+          cl->SetSourceUID(ola::rdm::UID(0x7a70, arg), ola::NewSingleCallback(&ev_set, &w, ci, rid));
+          break;
+        default:
+          return "bad-kind=" + f[2];
+      }
     } else if (op == "D") {
       if (!c->closed) {
         c->client->Stop();
